@@ -144,6 +144,23 @@ type UnaryArc = Arc<dyn Fn(Value) -> expression_engine::Result<Value> + Send + S
 
 type InfixArc = Arc<dyn Fn(Value, Value) -> expression_engine::Result<Value> + Send + Sync>;
 
+/// what a user's own thread-local does when its thread ends: use the engine once more
+struct LastWords {
+    env: Arc<Env>,
+    ops: Vec<Op>,
+    out: Arc<StdMutex<Vec<Res>>>,
+}
+impl Drop for LastWords {
+    fn drop(&mut self) {
+        let rs = self.ops.iter().map(|o| self.env.guarded(o)).collect::<Vec<_>>();
+        self.out.lock().unwrap().extend(rs);
+    }
+}
+#[cfg(feature = "sim")]
+shuttle::thread_local! { static EXIT_HOOK: std::cell::RefCell<Option<LastWords>> = std::cell::RefCell::new(None); }
+#[cfg(not(feature = "sim"))]
+thread_local! { static EXIT_HOOK: std::cell::RefCell<Option<LastWords>> = std::cell::RefCell::new(None); }
+
 #[cfg(feature = "sim")]
 fn me() -> usize {
     usize::from(shuttle::current::me())
@@ -212,11 +229,16 @@ fn payload_string(p: Box<dyn std::any::Any + Send>) -> String {
     }
 }
 
-// nesting depth of self-describing descriptors, per simulated task
-#[cfg(feature = "sim")]
-shuttle::thread_local! { static DESC_DEPTH: std::cell::Cell<u32> = std::cell::Cell::new(0); }
-#[cfg(not(feature = "sim"))]
-thread_local! { static DESC_DEPTH: std::cell::Cell<u32> = std::cell::Cell::new(0); }
+// the simulated tasks that are inside a self-describing descriptor right now.  Deliberately NOT a
+// thread-local: a descriptor may run while its thread ends (Op::OnThreadExit), when a simulated
+// thread-local of the harness would already be destroyed.  Key = (worker OS thread, simulated task).
+static DESC_ACTIVE: StdMutex<Vec<(std::thread::ThreadId, usize)>> = StdMutex::new(Vec::new());
+struct DescActive((std::thread::ThreadId, usize));
+impl Drop for DescActive {
+    fn drop(&mut self) {
+        DESC_ACTIVE.lock().unwrap_or_else(|e| e.into_inner()).retain(|k| *k != self.0);
+    }
+}
 
 /// one marker-descriptor registration through the given handle; ids >= REENTRANT_DESC re-enter the
 /// engine from inside the descriptor
@@ -225,16 +247,30 @@ fn set_desc(m: &mut DescriptorManager, kind: DKind, name: &str, id: usize) {
         if id >= EMPTY_DESC {
             String::new()
         } else if id >= SELF_DESC {
-            if DESC_DEPTH.with(|d| d.get()) > 0 {
-                return format!("<{}|{}|~>", id, parts);
+            let key = (std::thread::current().id(), me());
+            {
+                let mut g = DESC_ACTIVE.lock().unwrap_or_else(|e| e.into_inner());
+                if g.contains(&key) {
+                    return format!("<{}|{}|~>", id, parts);
+                }
+                g.push(key);
             }
-            DESC_DEPTH.with(|d| d.set(1));
+            let _active = DescActive(key);
             let text = crate::expr::Prog::one(self_desc_program()).text();
             let inner = match parse_expression(&text) {
                 Ok(a) => a.describe(),
                 Err(e) => format!("ERR {}", e),
             };
-            DESC_DEPTH.with(|d| d.set(0));
+            drop(_active);
+            format!("<{}|{}|{}>", id, parts, inner)
+        } else if id >= REG_DESC {
+            let mut m = DescriptorManager::new();
+            set_desc(&mut m, DKind::Reference, "inner_r", REG_INNER_ID);
+            drop(m);
+            let inner = match parse_expression("inner_r") {
+                Ok(a) => a.describe(),
+                Err(e) => format!("ERR {}", e),
+            };
             format!("<{}|{}|{}>", id, parts, inner)
         } else if id >= REENTRANT_DESC {
             let inner = match parse_expression("inner_q") {
@@ -534,6 +570,29 @@ impl Env {
                 match parse_expression(&text) {
                     Ok(ast) => Res::Text(ast.describe()),
                     Err(e) => Res::E(e.to_string()),
+                }
+            }
+            Op::OnThreadExit { ops, late } => {
+                let env = self.clone();
+                let ops = ops.clone();
+                let late = *late;
+                let out: Arc<StdMutex<Vec<Res>>> = Arc::new(StdMutex::new(vec![]));
+                let out2 = out.clone();
+                let h = spawn_task(move || {
+                    let last = LastWords { env: env.clone(), ops: ops.clone(), out: out2.clone() };
+                    let mut last = Some(last);
+                    if !late {
+                        EXIT_HOOK.with(|c| *c.borrow_mut() = last.take());
+                    }
+                    let rs = ops.iter().map(|o| env.guarded(o)).collect::<Vec<_>>();
+                    out2.lock().unwrap().extend(rs);
+                    if late {
+                        EXIT_HOOK.with(|c| *c.borrow_mut() = last.take());
+                    }
+                });
+                match h.join() {
+                    Ok(()) => Res::Many(std::mem::take(&mut *out.lock().unwrap())),
+                    Err(p) => Res::P(payload_string(p)),
                 }
             }
             Op::OnThread { ops } => {
